@@ -178,6 +178,25 @@ def _migrate_csv_to_rules(csv_file: str, config_dir: str, backup: bool = True) -
         return False
 
 
+def _exit_if_rules_unloadable(merchants_file, rule_mode: str = 'first_match') -> None:
+    """Stop with the parse error when the configured .rules file cannot be loaded.
+
+    A rules file that does not load must be reported, not treated as "no rules"
+    (get_all_rules() swallows parse errors). Used by up, explain and discover.
+    """
+    if not merchants_file or not str(merchants_file).endswith('.rules') or not os.path.exists(merchants_file):
+        return
+    from pathlib import Path
+    from .merchant_engine import load_merchants_file, MerchantParseError
+    try:
+        load_merchants_file(Path(merchants_file), match_mode=rule_mode)
+    except MerchantParseError as e:
+        print(f"Error: cannot load merchant rules from {merchants_file}", file=sys.stderr)
+        print(f"  {e}", file=sys.stderr)
+        print(f"\nFix the rules file (see 'tally diag') and run again.", file=sys.stderr)
+        sys.exit(1)
+
+
 def _check_merchant_migration(config: dict, config_dir: str, quiet: bool = False, migrate: bool = False) -> list:
     """
     Check if merchant rules should be migrated from CSV to .rules format.
@@ -262,18 +281,7 @@ def _check_merchant_migration(config: dict, config_dir: str, quiet: bool = False
 
     # New .rules format
     if merchants_format == 'new':
-        # A rules file that does not load must be reported, not treated as "no rules"
-        # (get_all_rules() swallows parse errors)
-        if merchants_file.endswith('.rules'):
-            from pathlib import Path
-            from .merchant_engine import load_merchants_file, MerchantParseError
-            try:
-                load_merchants_file(Path(merchants_file), match_mode=rule_mode)
-            except MerchantParseError as e:
-                print(f"Error: cannot load merchant rules from {merchants_file}", file=sys.stderr)
-                print(f"  {e}", file=sys.stderr)
-                print(f"\nFix the rules file (see 'tally diag') and run again.", file=sys.stderr)
-                sys.exit(1)
+        _exit_if_rules_unloadable(merchants_file, rule_mode)
         rules = get_all_rules(merchants_file, match_mode=rule_mode)
         if not quiet:
             print(f"Loaded {len(rules)} categorization rules from {merchants_file}")
